@@ -87,7 +87,7 @@ class Session:
             rp2 = Replayer(ex2, leaves, exact_tags=exact_tags, prefix="v_", **kw)
             idx2, bad2 = rp2.run(steps)
         if idx2 is None:
-            raise ToolError("mismatch did not reproduce on a fresh executor: %s" % bad)
+            return self.history_dependent(steps, idx, bad, rp, label)
         st = steps[idx2]
         self.check.violation(
             "step %d (%s%s): %s" % (idx2, st["op"], "/" + st["form"] if st.get("form") else "", "; ".join(bad2)),
@@ -161,6 +161,33 @@ class TransitionBatch:
                 ses.replay(prefix + [last], exact_tags=self.exact_tags, label=self.label,
                            sample=len(ses.check.cov["samples"]) < 3, **self.kw)
         self.groups = {}
+
+
+def _history_dependent(self, steps, idx, bad, rp, label):
+    """The same calls with the same arguments conform on a fresh process but not in this one: the result depends on
+    what the process did before.  Re-run the WHOLE command history on a fresh process; if the deviation shows again
+    it is a deterministic function of the history and is reported with that history as its replay."""
+    hist = self.ex.history()
+    cmd_bad, ev_bad = rp.trace[-1]
+    if hist is None:
+        raise ToolError("mismatch did not reproduce on a fresh executor and the command history is too long to replay: %s" % bad)
+    with Executor() as ex3:
+        evs = [ex3.call(c) for c in hist]
+    # the mismatching call is the last one of this behaviour in the history (drop commands follow it)
+    pos = max(i for i, c in enumerate(hist) if c == cmd_bad)
+    strip = lambda e: {k: e.get(k) for k in ("ok", "err", "panic", "seq", "ovf")}
+    same = strip(evs[pos]) == strip(ev_bad)
+    st = steps[idx]
+    self.check.violation(
+        "step %d (%s): %s - only after this process's earlier calls: the same call conforms on a fresh process (%s)"
+        % (idx, st["op"], "; ".join(bad), "reproducible from the recorded history" if same else "NOT reproducible: timing / thread dependent"),
+        {"kind": "history", "seed": seed(), "history": hist[:pos + 1] if len(json.dumps(hist[:pos + 1])) < 20_000_000 else "too long",
+         "mismatch": bad, "event": ev_bad, "steps": steps[:idx + 1], "reproducible": same,
+         "fingerprint": "history-" + fingerprint(st, bad)})
+    return False
+
+
+Session.history_dependent = _history_dependent
 
 
 def summarise(cmd, ev):
